@@ -266,6 +266,9 @@ impl DepthFirstSearch {
         goal.status = GoalStatus::InProgress;
         goal.depth = depth;
 
+        // Whether THIS goal (not some sub-goal sharing `self.solutions`) was proven
+        let mut goal_solution_found = false;
+
         // Try each candidate rule
         for rule_name in goal.candidate_rules.clone() {
             self.path.push(rule_name.clone());
@@ -281,6 +284,7 @@ impl DepthFirstSearch {
                     Ok(true) if self.check_goal_in_facts(goal, facts) => {
                         // Rule executed successfully and goal is now proven
                         goal.status = GoalStatus::Proven;
+                        goal_solution_found = true;
 
                         // Save this solution
                         self.solutions.push(Solution {
@@ -289,7 +293,12 @@ impl DepthFirstSearch {
                         });
 
                         // If we only want one solution OR we've found enough, stop searching
-                        if self.max_solutions == 1 || self.solutions.len() >= self.max_solutions {
+                        // (a sub-goal needs one proof only: its derivation must stay in place
+                        // for the parent rule, so alternatives are enumerated at the root)
+                        if depth > 0
+                            || self.max_solutions == 1
+                            || self.solutions.len() >= self.max_solutions
+                        {
                             return true; // keep changes
                         }
 
@@ -308,6 +317,7 @@ impl DepthFirstSearch {
                             match self.executor.try_execute_rule(&rule, facts) {
                                 Ok(true) if self.check_goal_in_facts(goal, facts) => {
                                     goal.status = GoalStatus::Proven;
+                                    goal_solution_found = true;
 
                                     // Save this solution
                                     self.solutions.push(Solution {
@@ -316,7 +326,8 @@ impl DepthFirstSearch {
                                     });
 
                                     // If we only want one solution OR we've found enough, stop searching
-                                    if self.max_solutions == 1
+                                    if depth > 0
+                                        || self.max_solutions == 1
                                         || self.solutions.len() >= self.max_solutions
                                     {
                                         return true; // keep changes
@@ -371,7 +382,7 @@ impl DepthFirstSearch {
         }
 
         // If we found at least one solution (even if less than max_solutions), consider it proven
-        if !self.solutions.is_empty() {
+        if goal_solution_found {
             goal.status = GoalStatus::Proven;
             // For negated goals, finding a proof means negation fails
             return !goal.is_negated;
